@@ -62,7 +62,10 @@ M = {
         ("argument scan stops at the first qubit", _uc,
          "            if contain_qubit_ty(get_type(arg)):\n                classical = False\n", "            if contain_qubit_ty(get_type(arg)):\n                classical = False\n                break\n", "R-C24"),
         ("tensor calls unchecked", _uc,
-         "    def visit_TensorCall(self, node: TensorCall) -> None:\n        self._check_call(node, node.tensor_ty)", "    def visit_TensorCall(self, node: TensorCall) -> None:\n        pass", "R-C24"),
+         "        self.visit(node.func)\n        self._check_call(node, node.tensor_ty)", "        pass", "R-C24"),
+        ("tensor calls: the callee tuple is not visited (the defect fixed by 7776e3a)", _uc,
+         "        # The callee is an arbitrary tuple expression that may itself contain calls\n        self.visit(node.func)\n        self._check_call(node, node.tensor_ty)",
+         "        self._check_call(node, node.tensor_ty)", "R-C24.8"),
         ("nested with forgets the enclosing flags", _b,
          "flags = self.cfg.unitary_flags | new_node.flags()", "flags = new_node.flags()", "R-C24.3"),
         ("benign: conjunction reordered", _uc,
